@@ -112,7 +112,7 @@ Qed.
 
 Definition pay (h : heap) (z : id * cell) : Prop :=
   exists n, nth_error h (fst z) = Some n /\ n_st n = c_st (snd z) /\ n_ref n = c_ref (snd z) /\
-            (c_st (snd z) = StOk -> n_key n = c_key (snd z) /\ n_val n = c_val (snd z)).
+            (c_st (snd z) <> StLast -> n_key n = c_key (snd z) /\ n_val n = c_val (snd z)).
 
 Definition ids_of (zs : list (id * cell)) : list id := map fst zs.
 Definition stamps_of (zs : list (id * cell)) : list nat := map (fun z => c_stamp (snd z)) zs.
